@@ -91,6 +91,12 @@ def table():
     t.append(("addr:local_array", PRE + fill + fn("", ["var a: [2]i32 = [1, 2];", "fill(&a, 9);"]), "accept"))
     t.append(("addr:member_of_local_struct", PRE + fill + fn("", ["var s = In { n: 1, k: [1, 2] };", "poke(&s.n);", "fill(&s.k, 3);"]), "accept"))
     t.append(("addr:through_pointer_param", PRE + fill + fn("s: &S", ["poke(&s.m);", "fill(&s.arr, 3);"]), "accept"))
+    # the same addresses wrapped in a bit cast (`cast &x` is still an address of x)
+    t.append(("addr:cast_member_of_struct_view", PRE + fn("s: S", ["var raw: &u32 = cast &s.m;", "raw = 0;"]), {530}))
+    t.append(("addr:cast_constant", PRE + fn("", ["var raw: &u32 = cast &K;", "raw = 0;"]), {530}))
+    t.append(("addr:cast_value_param", PRE + fn("x: i32", ["var raw: &u32 = cast &x;", "raw = 0;"]), {530}))
+    t.append(("addr:cast_local", PRE + fn("", ["var v: i32 = 1;", "var raw: &u32 = cast &v;", "raw = 0;"]), "accept"))
+    t.append(("addr:cast_through_pointer_param", PRE + fn("s: &S", ["var raw: &u32 = cast &s.m;", "raw = 0;"]), "accept"))
     # pointers to endless arrays (`&[..]T`, spelled `&[]T` in extern signatures): a view must not turn into one silently
     endless = "fn efill(x: &[..]i32)\n{\n\tx[0] = 88;\n}\n"
     ext = "extern fn xfill(x: &[]i32)\n{\n\tx[0] = 77;\n}\n"
